@@ -200,7 +200,13 @@ func genC14Log(r *rng, maxLen int) []c14Change {
 			if r.intn(12) == 0 {
 				pid = uuidFrom(r).String() // unknown partition
 			}
-			log = append(log, c14Change{Kind: kind, Ds: m.Id, Pid: pid, Node: uint64(2 + r.intn(5))})
+			// node 1 is the applying node: a removal of itself has to be applied whether or not the allocator loop has
+			// loaded the partition's group by then (on replay it usually has not)
+			node := uint64(2 + r.intn(5))
+			if kind == "remove" && r.intn(3) == 0 {
+				node = 1
+			}
+			log = append(log, c14Change{Kind: kind, Ds: m.Id, Pid: pid, Node: node})
 		}
 	}
 	return log
@@ -216,6 +222,18 @@ func c14Corpus() (logs [][]c14Change, cuts, priors []int) {
 	// … or one whose replica set changed in the meantime
 	logs = append(logs, []c14Change{{Kind: "create", Meta: m}, {Kind: "add", Ds: m.Id, Pid: m.Parts[0].Id, Node: 4}, {Kind: "remove", Ds: m.Id, Pid: m.Parts[0].Id, Node: 2}, {Kind: "remove", Ds: m.Id, Pid: m.Parts[0].Id, Node: 3}})
 	cuts, priors = append(cuts, 3), append(priors, 1)
+	// the applying node is a replica of four partitions and is removed from each right away (a replay applies the
+	// entries back to back, before the allocator loop has loaded the groups)
+	m4 := c14Meta{Id: uuidFrom(r).String(), Dim: 2, Space: 0}
+	for p := 0; p < 4; p++ {
+		m4.Parts = append(m4.Parts, c14Part{Id: uuidFrom(r).String(), Nodes: []uint64{1, 2}})
+	}
+	l4 := []c14Change{{Kind: "create", Meta: m4}}
+	for p := 3; p >= 0; p-- {
+		l4 = append(l4, c14Change{Kind: "remove", Ds: m4.Id, Pid: m4.Parts[p].Id, Node: 1})
+	}
+	logs = append(logs, l4)
+	cuts, priors = append(cuts, 5), append(priors, 0)
 	// duplicate create, delete of a missing dataset, snapshot of the empty catalogue
 	logs = append(logs, []c14Change{{Kind: "create", Meta: m}, {Kind: "create", Meta: m}, {Kind: "delete", Ds: m2.Id}, {Kind: "delete", Ds: m.Id}})
 	cuts, priors = append(cuts, 4), append(priors, 1)
